@@ -102,7 +102,137 @@ theorem month_names (s : String) (i : Nat) (hi : i < 12)
   unfold get_month_str
   rcases h with h | h <;> rw [h] <;> interval_cases i <;> decide
 
+/-- The calendar switch-over at its boundary values: 4 October 1582 (Julian) is JD 2299159.5, the next day 15 October
+    (Gregorian) is JD 2299160.5 exactly, and that very instant reads back as 15 October, the instant before as 4 October. -/
+theorem reform_boundary :
+    compute_jde 1582 10 4 = 2299159.5 ∧ compute_jde 1582 10 15 = 2299160.5 ∧
+    get_date 2299160.5 = .ok (1582, 10, 15) ∧ get_date 2299160.25 = .ok (1582, 10, 4.75) ∧
+    compute_jde 1582 10 4.75 = 2299160.25 := by
+  decide +kernel
+
+/-- "a year before −4712 is refused with ValueError", whatever month and day -/
+theorem refuses_year_below_range (y m : Int) (d : ℚ) (hy : y < -4712) : epoch_ymd y m d = .error .valueError := by
+  unfold epoch_ymd check_values
+  simp [hy]
+
+/-- a month number outside 1..12 is refused with ValueError, whatever year and day -/
+theorem refuses_month_out_of_range (y m : Int) (d : ℚ) (hm : m < 1 ∨ 12 < m) : epoch_ymd y m d = .error .valueError := by
+  have hg : get_month_int m = .error .valueError := by
+    unfold get_month_int
+    have : ¬ (m ≥ 1 ∧ m ≤ 12) := by omega
+    simp [this]
+  unfold epoch_ymd check_values
+  rw [hg]
+  split_ifs <;> rfl
+
+/-- validation accepts EXACTLY the triples (year ≥ −4712, month 1..12, 1 ≤ day ≤ length of the month under the leap rule
+    in force) — for every integer triple -/
+theorem constructor_accepts_iff (y m d : Int) :
+    (∃ j, epoch_ymd y m (ofInt d) = .ok j) ↔ (-4712 ≤ y ∧ 1 ≤ m ∧ m ≤ 12 ∧ 1 ≤ d ∧ d ≤ monthLen y m) := by
+  constructor
+  · rintro ⟨j, hj⟩
+    by_contra hn
+    have : epoch_ymd y m (ofInt d) = .error .valueError := by
+      by_cases hy : y < -4712
+      · exact refuses_year_below_range y m _ hy
+      by_cases hm : m < 1 ∨ 12 < m
+      · exact refuses_month_out_of_range y m _ hm
+      by_cases hd : d < 1
+      · exact refuses_day_below_one y m d hd
+      · exact refuses_day_past_month_end y m d (by omega) (by omega) (by omega)
+    rw [this] at hj; cases hj
+  · rintro ⟨hy, hm1, hm12, hd1, hd⟩
+    have hd31 : d ≤ 31 := by unfold monthLen at hd; split_ifs at hd <;> omega
+    have c1 : ¬ y < -4712 := by omega
+    have hq1 : ¬ ((d : ℚ) < 1) := by push_cast [not_lt]; exact_mod_cast hd1
+    have hq32 : ¬ ((32 : ℚ) ≤ (d : ℚ)) := by rw [not_le]; exact_mod_cast (by omega : d < 32)
+    have hlim : ¬ (((month_limit y m + 1 : Int) : ℚ) ≤ (d : ℚ)) := by
+      rw [not_le, month_limit_eq y m hm1 hm12]; exact_mod_cast (by omega : d < monthLen y m + 1)
+    push_cast at hlim
+    have hc : check_values y (get_month_int m) (ofInt d) 0.0 0.0 0.0 = .ok (y, m, ofInt d, 0.0, 0.0, 0.0) := by
+      unfold check_values get_month_int
+      norm_num [c1, hm1, hm12, plt, ple, ofInt, hq1, hq32, hlim]
+    unfold epoch_ymd
+    rw [hc]
+    exact ⟨_, rfl⟩
+
+/-- the month given by name is validated exactly like the month given by number: the February extension of a leap year
+    (and every other length test) is decided on the RESOLVED month -/
+theorem month_name_same_as_number (s : String) (i : Nat) (hi : i < 12)
+    (h : py_strip_capitalize s = months_mmm[i]! ∨ py_strip_capitalize s = months_full[i]!)
+    (y : Int) (d hh mi sec : ℚ) :
+    check_values y (get_month_str s) d hh mi sec = check_values y (get_month_int ((i : Int) + 1)) d hh mi sec := by
+  rw [month_names s i hi h]
+  have : get_month_int ((i : Int) + 1) = .ok ((i : Int) + 1) := by
+    unfold get_month_int
+    have : ((i : Int) + 1 ≥ 1 ∧ (i : Int) + 1 ≤ 12) := by omega
+    simp [this]
+  rw [this]
+
+/-- 29 February of a leap year is accepted when the month is written by name, 29 February 1900 is not -/
+theorem feb29_by_name :
+    (check_values 2000 (get_month_str " feb ") 29 0 0 0).isOk = true ∧
+    (check_values 1500 (get_month_str "February") 29 0 0 0).isOk = true ∧
+    (check_values 1900 (get_month_str "FEB") 29 0 0 0).isOk = false ∧
+    (check_values 2000 (get_month_str "FEB") 30 0 0 0).isOk = false := by
+  decide +kernel
+
+/-- validation with a FRACTIONAL day (the time of day folded into the day number): accepted exactly when
+    1 ≤ day < month length + 1 — the boundary value `length + 1` itself is refused, `length + 0.999…` is accepted -/
+theorem constructor_accepts_rational_day_iff (y m : Int) (d : ℚ) :
+    (∃ j, epoch_ymd y m d = .ok j) ↔ (-4712 ≤ y ∧ 1 ≤ m ∧ m ≤ 12 ∧ 1 ≤ d ∧ d < (monthLen y m : ℚ) + 1) := by
+  by_cases hy : y < -4712
+  · rw [refuses_year_below_range y m d hy]
+    constructor
+    · rintro ⟨j, hj⟩; cases hj
+    · rintro ⟨h, _⟩; omega
+  by_cases hm : m < 1 ∨ 12 < m
+  · rw [refuses_month_out_of_range y m d hm]
+    constructor
+    · rintro ⟨j, hj⟩; cases hj
+    · rintro ⟨_, h1, h2, _⟩; omega
+  have hm1 : 1 ≤ m := by omega
+  have hm12 : m ≤ 12 := by omega
+  have hml := monthLen_ge y m
+  have hmlq : ((monthLen y m : Int) : ℚ) ≤ 31 := by exact_mod_cast hml.2
+  have hg : get_month_int m = .ok m := by
+    unfold get_month_int
+    have : (m ≥ 1 ∧ m ≤ 12) := ⟨hm1, hm12⟩
+    simp [this]
+  unfold epoch_ymd check_values
+  rw [hg]
+  have z1 : plt (0.0 : ℚ) 0 = false := by decide +kernel
+  have z24 : ple (24 : ℚ) 0.0 = false := by decide +kernel
+  have z60 : ple (60 : ℚ) 0.0 = false := by decide +kernel
+  simp only [hy, if_false, z1, z24, z60, Bool.or_false, Bool.false_eq_true, month_limit_eq y m hm1 hm12]
+  unfold plt ple ofInt
+  by_cases c1 : d < 1
+  · simp only [c1, decide_true, Bool.true_or, if_true]
+    constructor
+    · rintro ⟨j, hj⟩; cases hj
+    · rintro ⟨_, _, _, h, _⟩; linarith
+  by_cases c2 : (32 : ℚ) ≤ d
+  · simp only [c1, c2, decide_true, decide_false, Bool.false_or, if_true]
+    constructor
+    · rintro ⟨j, hj⟩; cases hj
+    · rintro ⟨_, _, _, _, h⟩; linarith
+  by_cases c3 : (((monthLen y m + 1 : Int)) : ℚ) ≤ d
+  · simp only [c1, c2, c3, decide_true, decide_false, Bool.false_or, Bool.false_eq_true, if_false, if_true]
+    constructor
+    · rintro ⟨j, hj⟩; cases hj
+    · rintro ⟨_, _, _, _, h⟩; push_cast at c3; linarith
+  · simp only [c1, c2, c3, decide_false, Bool.false_or, Bool.false_eq_true, if_false]
+    constructor
+    · intro _; push_cast at c3; exact ⟨by omega, hm1, hm12, by linarith, by linarith⟩
+    · intro _; exact ⟨_, rfl⟩
+
+example : (∃ j, epoch_ymd 2000 2 29.999 = .ok j) ∧ ¬ (∃ j, epoch_ymd 2000 2 30 = .ok j) := by
+  rw [constructor_accepts_rational_day_iff, constructor_accepts_rational_day_iff]
+  norm_num [monthLen, Spec.leap]
+
 -- Non-vacuity: the hypotheses are met by concrete, non-trivial inputs.
+example : py_strip_capitalize " feb " = months_mmm[1]! := by decide
+example : (0 : ℚ) ≤ 3 / 4 ∧ (3 / 4 : ℚ) < 1 ∧ Valid 1582 10 4 := by refine ⟨by norm_num, by norm_num, by decide⟩
 example : Valid 1582 10 4 ∧ next 1582 10 4 = (1582, 10, 15) := by decide
 example : Valid 2000 2 29 ∧ ¬ Valid 1900 2 29 ∧ Valid 1500 2 29 ∧ Valid (-4712) 2 29 := by decide
 example : py_strip_capitalize "  aUGust " = months_full[7]! := by decide
